@@ -14,6 +14,7 @@ Definition mko := Build_cobj.
 Definition mkss := Build_ssconf.
 Definition mkx := Build_extra.
 Definition mkfb := Build_fblocked.
+Definition mksrc := Build_sources.
 
 (** What one generation showed: the error of Init (stage 0: toPersistent,
     code 1 ids / 2 blocked service; stage 1: storage, code = error class of
@@ -93,14 +94,20 @@ Section Conf.
     | _, _ => false
     end.
 
+  (** The storage configuration Init builds from the runtime_sources switches
+      and the DHCP server (its lease table) the harness handed to Init. *)
+  Variable srcs : sources.
+  Variable leases : list (addr * bytes).
+  Definition conf_sc : storage_conf := init_conf srcs (fun a => zget a leases) false.
+
   Definition conf_obs (probes : list (bytes * addr)) (g : settings) (l : lres) : cres :=
     match l with
     | LConvErr i e => RErr 0 i (match e with CErrIds => 1 | CErrService => 2 end)
     | LAddErr i e => RErr 1 i (ecode e)
     | LOk r =>
         ROk (map (fun c => (c, extra_of r (c_uid c))) (clients_by_name (fst r)))
-            (map (fun q => apply_client_filtering (fst r) (fun _ => None) (fst q) (snd q) g) probes)
-            (map (fun q => query_panics r (fun _ => None) (fst q) (snd q)) probes)
+            (map (fun q => container_acf conf_sc r (fst q) (snd q) g) probes)
+            (map (fun q => query_panics r (sc_dhcp conf_sc) (fst q) (snd q)) probes)
             (save r)
     end.
 
